@@ -8,8 +8,9 @@
                [c_inherit] = (Implements.inherit is not None); the specification's __bases__ are
                always  declared + [implementedBy(b) for b in cls.__bases__] (if inherit), which is
                what _classImplements_ordered assigns, so they are not stored separately;
-               [c_cprov] = the interface arguments of the class's own ``__provides__``
-               (ClassProvides(cls, type, *c_cprov)).
+               [c_cprov] = what _add_interfaces_to_cls kept of the interface arguments of the class's
+               own ``__provides__`` (ClassProvides(cls, metaclass, *args)); [c_meta] = the interfaces
+               implementedBy(metaclass) names directly (None: the metaclass is ``type``).
      insts   : per instance its class, whether it is still alive, and its ``__provides__``:
                [Some kept] = a Provides specification whose __bases__ are kept + (implementedBy(cls),)
                — [kept] is what Declaration._add_interfaces_to_cls left of the arguments WHEN THE
@@ -45,13 +46,16 @@
    * Omitted: ``Interface`` itself as a declared interface (the root special case of
      _classImplements_ordered), Implements/Declaration objects as arguments of declaration
      calls (only interfaces), super() objects, old-style __implemented__, builtin types,
-     metaclasses other than ``type``, moduleProvides. *)
+     declarations on a metaclass during the history, moduleProvides. *)
 From Coq Require Import List Arith Bool.
 Import ListNotations.
 From ZI Require Import Lib.Util.
 From ZI Require Export Model.DeclOps.
 
-Record crec := mkC { c_bases : list cls; c_decl : list iface; c_inherit : bool; c_cprov : list iface }.
+Record crec := mkC { c_bases : list cls; c_decl : list iface; c_inherit : bool; c_cprov : list iface;
+                     c_meta : option (list iface) }.
+(* the interfaces implementedBy(type(cls)) names directly *)
+Definition meta_direct (r : crec) : list iface := match c_meta r with Some l => l | None => [] end.
 Record irec := mkI { i_cls : cls; i_live : bool; i_prov : option (list iface) }.
 Definition ckey := (cls * list iface)%type.
 Record state := mkS { classes : list crec; insts : list irec; cache : list (ckey * list iface) }.
@@ -112,7 +116,7 @@ Definition class_ordered (ev : bool) (g : igraph) (st : state) (c : cls) (before
   | Some r =>
       let fl := cflat g st c in
       let nd := dedup (keepnew fl before ++ c_decl r ++ keepnew fl after) in
-      set_class ev st c (mkC (c_bases r) nd (c_inherit r) (c_cprov r))
+      set_class ev st c (mkC (c_bases r) nd (c_inherit r) (c_cprov r) (c_meta r))
   end.
 
 (* declarations.py:classImplements — before/after split by strict ``extends`` *)
@@ -129,7 +133,7 @@ Definition class_only (ev : bool) (g : igraph) (st : state) (c : cls) (l : list 
   match nth_error (classes st) c with
   | None => st
   | Some r =>
-      let st1 := set_class ev st c (mkC (c_bases r) [] false (c_cprov r)) in
+      let st1 := set_class ev st c (mkC (c_bases r) [] false (c_cprov r) (c_meta r)) in
       class_ordered ev g st1 c l []
   end.
 
@@ -152,18 +156,20 @@ Definition direct_inst (g : igraph) (st : state) (o : obj) (args : list iface) :
   | None => st
   end.
 
-(* directlyProvides, class branch: object.__provides__ = ClassProvides(object, type, *interfaces);
-   implementedBy(type) implies no numbered interface, so nothing is stripped *)
-Definition direct_cls (st : state) (c : cls) (args : list iface) : state :=
+(* directlyProvides, class branch: object.__provides__ = ClassProvides(object, cls, *interfaces)
+   with cls = the metaclass; _add_interfaces_to_cls strips what implementedBy(metaclass) implies *)
+Definition direct_cls (g : igraph) (st : state) (c : cls) (args : list iface) : state :=
   match nth_error (classes st) c with
-  | Some r => mkS (upd (classes st) c (mkC (c_bases r) (c_decl r) (c_inherit r) args)) (insts st) (cache st)
+  | Some r => mkS (upd (classes st) c (mkC (c_bases r) (c_decl r) (c_inherit r)
+                                           (keepnew (closure g (meta_direct r)) args) (c_meta r)))
+                  (insts st) (cache st)
   | None => st
   end.
 
 Definition directly (g : igraph) (st : state) (t : target) (args : list iface) : state :=
   match t with
   | TInst o => direct_inst g st o args
-  | TCls c => direct_cls st c args
+  | TCls c => direct_cls g st c args
   end.
 
 (* list(directlyProvidedBy(t)): Declaration(provides.__bases__[:-1]).interfaces() *)
@@ -181,9 +187,9 @@ Definition dpb (st : state) (t : target) : list iface :=
 
 Definition step (ev : bool) (g : igraph) (st : state) (o : op) : state :=
   match o with
-  | NewClass bs =>
+  | NewClass bs m =>
       let n := length (classes st) in
-      mkS (classes st ++ [mkC (filter (fun b => Nat.ltb b n) bs) [] true []]) (insts st) (cache st)
+      mkS (classes st ++ [mkC (filter (fun b => Nat.ltb b n) bs) [] true [] m]) (insts st) (cache st)
   | NewInstance c =>
       if Nat.ltb c (length (classes st))
       then mkS (classes st) (insts st ++ [mkI c true None]) (cache st)
@@ -211,7 +217,9 @@ Definition run (ev : bool) (g : igraph) (ops : list op) : state := fold_left (st
 (* the interfaces named directly in the specification providedBy(t) returns, and below it:
    instance with __provides__: kept + implementedBy(cls); instance without: implementedBy(cls)
    (ObjectSpecificationDescriptor.__get__ / ClassProvidesBase.__get__ -> _implements);
-   class object: its ClassProvides = arguments + implementedBy(type) *)
+   class object: its ClassProvides = kept arguments + implementedBy(metaclass), whether or not
+   implementedBy(cls) has been computed yet (before that, the metaclass's own ClassProvides
+   descriptor answers with implementedBy(metaclass)) *)
 Definition spec_direct (st : state) (t : target) : list iface :=
   match t with
   | TInst o => match nth_error (insts st) o with
@@ -222,7 +230,7 @@ Definition spec_direct (st : state) (t : target) : list iface :=
                | None => []
                end
   | TCls c => match nth_error (classes st) c with
-              | Some r => c_cprov r
+              | Some r => c_cprov r ++ meta_direct r
               | None => []
               end
   end.
